@@ -61,7 +61,7 @@ REPLAY_CMD = "PYTHONPATH=%s:%s /venv/bin/python -m harness.c18_replay '%s'"
 SIG_OLD = "C18:old-write-not-flushed"
 
 # calls made on a Bucket object at the API layer (ds[b].<method>)
-BUCKET_METHODS = lib.EVENT_WRITE_CALLS + ("insert_many_bad", "get_event", "get_events", "get_eventcount", "get_metadata")
+BUCKET_METHODS = lib.EVENT_WRITE_CALLS + ("insert_many_bad", "insert_many_badup", "get_event", "get_events", "get_eventcount", "get_metadata")
 
 
 def _fake_us_or_none(d):
@@ -151,7 +151,7 @@ class Runner18(lib.Runner):
         "first": label | None (the row of the first upsert of a list; kept for replays, the statement
         is about every row of the call since the call-level reading of the property)}"""
         E, name = self.Event, spec[0]
-        if name not in lib.EVENT_WRITE_CALLS and name != "insert_many_bad":
+        if name not in lib.EVENT_WRITE_CALLS and name not in ("insert_many_bad", "insert_many_badup"):
             return None, None
         b = spec[1]
         have = b in self.bucket_ids()
@@ -159,6 +159,10 @@ class Runner18(lib.Runner):
         if name == "insert_one":
             n = self.fresh()
             return lib._ev(E, n), ({"present": [n], "absent": [], "first": None} if have else None)
+        if name == "insert_many_badup":
+            evs = [E(id=i, timestamp=lib.T0, duration=timedelta(days=200_000_000), data={"n": self.fresh()})
+                   if k == spec[3] else lib._ev(E, self.fresh(), eid=i) for k, i in enumerate(spec[2])]
+            return evs + [lib._ev(E, self.fresh()) for _ in range(spec[4])], None
         if name in ("insert_many", "insert_many_bad"):
             ups = [(i, self.fresh()) for i in spec[2]]
             rows = [self.fresh() for _ in range(spec[3])]
@@ -213,7 +217,7 @@ class Runner18(lib.Runner):
             st.delete_bucket(spec[1])
         elif name == "insert_one":
             st.insert_one(spec[1], arg)
-        elif name in ("insert_many", "insert_many_bad"):
+        elif name in ("insert_many", "insert_many_bad", "insert_many_badup"):
             st.insert_many(spec[1], arg)
         elif name == "replace":
             st.replace(spec[1], spec[2], arg)
@@ -246,7 +250,7 @@ class Runner18(lib.Runner):
             ds.buckets()
         elif name in BUCKET_METHODS:
             bk = ds[spec[1]]
-            if name in ("insert_one", "insert_many", "insert_many_bad"):
+            if name in ("insert_one", "insert_many", "insert_many_bad", "insert_many_badup"):
                 bk.insert(arg)                       # an Event or a list of Events
             elif name == "replace":
                 bk.replace(spec[2], arg)
@@ -318,7 +322,7 @@ def expectation18(r, spec):
     if b not in have:
         # ds[b]: KeyError after the bucket listing, the storage method is never reached
         return "api-no-bucket", True, ("bucket", cached)
-    if name == "insert_many_bad":
+    if name in ("insert_many_bad", "insert_many_badup"):
         # Bucket.insert adds timestamp + duration of every event before it calls the storage
         return "api-wrapper-raises", True, ("bucket", cached)
     return exp, raises, ("bucket", cached)
